@@ -31,8 +31,8 @@ func (c02) enumCount(tier string) int {
 	}
 	return NumDigraphs(3)*Fact(3)*5 + 2500
 }
-func (c02) randomCount(tier string) int { return tierN(tier, 1200, 25000) }
-func (c02) selfCount(tier string) int   { return tierN(tier, 600, 10000) }
+func (c02) randomCount(tier string) int { return tierN(tier, 1200, 80000) }
+func (c02) selfCount(tier string) int   { return tierN(tier, 600, 40000) }
 func (p c02) NumCases(tier string) int {
 	return p.enumCount(tier) + p.randomCount(tier) + p.selfCount(tier)
 }
